@@ -599,9 +599,9 @@ class tcp (packet_base):
         continue
 
       # Sanity checking
-      if i + 2 > dlen:
+      if i + 2 > self.hdr_len:
         raise RuntimeError("Very truncated TCP option")
-      if i + arr[i+1] > dlen:
+      if i + arr[i+1] > self.hdr_len:
         raise RuntimeError("Truncated TCP option")
       if arr[i+1] < 2:
         raise RuntimeError("Illegal TCP option length")
